@@ -40,7 +40,7 @@ PROPS = {
     "C03": dict(streams=[ALGO, HIST, COMP], oracles=[dict(name="greedy", profiles=["debug"])],
                 assumptions=["theorems cover the primitive algorithm (working matrix: any carrier; closed-form criterion: exact arithmetic); order laws of `<` (transitive, irreflexive) are hypotheses that IEEE comparison satisfies"]),
     "C04": dict(streams=[ALGO, HIST], oracles=[dict(name="single_exact", profiles=["debug"])],
-                assumptions=["threshold-component and MST-weight characterisations are checked by the oracle, not proved"]),
+                assumptions=["threshold-component theorem is for mst_with (= linkage Single) under strict-weak-order hypotheses on the carrier and finite entries; MST-optimality of the Prim weights is classical and not formalised; other entry points are checked by the oracle"]),
     "C06": dict(streams=[ALGO], translators=["tables"], oracles=[dict(name="agree", profiles=["debug"])],
                 assumptions=["agreement between different algorithms is not a theorem"]),
     "C09": dict(streams=[ALGO], translators=["formulas"], oracles=[dict(name="scale", profiles=["debug"])],
